@@ -100,87 +100,163 @@ theorem inv_not (i2f : Int → Nat) (rows : List Row) (e : Expr) (a out : Out)
 
 /-! ### AND / OR -/
 
+theorem zip_map_map {α β γ : Type} (f : α → β) (g : α → γ) (l : List α) :
+    (l.map f).zip (l.map g) = l.map (fun x => (f x, g x)) := by
+  induction l with
+  | nil => rfl
+  | cons x xs ih => simp [ih]
+
+/-- A boolean node satisfying the invariant, in uniform (data, presence) form: `p` is constantly true for a
+    non-nullable buffer. -/
+theorem Inv.boolForm {i2f : Int → Nat} {rows : List Row} {e : Expr} {out : Out} (h : Inv i2f rows e out)
+    (hb : out.ty.decoded = .boolean) :
+    ∃ (b p : Row → Bool), out.poison = false ∧ out.data = .bits (rows.map b)
+      ∧ presentList (rows.map b) out.present = rows.map p
+      ∧ (out.present = none → ∀ r ∈ rows, eval i2f e r = boolVal (b r))
+      ∧ (out.present = none ∨ out.present = some (rows.map p))
+      ∧ ∀ r ∈ rows, Truth i2f e r (b r && p r) := by
+  cases h with
+  | exact b hp ht hd hn hv =>
+    refine ⟨b, fun _ => true, hp, hd, by simp [hn, presentList, List.map_map, Function.comp_def], fun _ => hv, Or.inl hn, ?_⟩
+    intro r hr; simpa using truth_of_exact i2f e r (b r) (hv r hr)
+  | nullable b p hp ht hd hn hv =>
+    refine ⟨b, p, hp, hd, ?_, ?_, Or.inr hn, hv⟩
+    · simp [hn, presentList]
+    · intro h0; rw [hn] at h0; cases h0
+  | nullTyped hp ht hv => rw [ht] at hb; cases hb
+
+theorem kleene_and_truth (a pa b pb : Bool) :
+    ((a && b) && kleeneKnown false pa a pb b) = ((a && pa) && (b && pb)) := by
+  cases a <;> cases pa <;> cases b <;> cases pb <;> rfl
+
+theorem kleene_or_truth (a pa b pb : Bool) :
+    ((a || b) && kleeneKnown true pa a pb b) = ((a && pa) || (b && pb)) := by
+  cases a <;> cases pa <;> cases b <;> cases pb <;> rfl
+
+/-- AND / OR of two boolean nodes (nullable or not): Kleene logic. -/
+theorem inv_bool (i2f : Int → Nat) (rows : List Row) (isOr : Bool) (l r : Expr) (a b out : Out)
+    (ha : Inv i2f rows l a) (hb : Inv i2f rows r b)
+    (hta : a.ty.decoded = .boolean) (htb : b.ty.decoded = .boolean)
+    (h : boolNode isOr a b = .ok out) :
+    Inv i2f rows (if isOr then .or l r else .and l r) out := by
+  obtain ⟨ba, pa, hpa, hda, hla, hea, hsa, hva⟩ := ha.boolForm hta
+  obtain ⟨bb, pb, hpb, hdb, hlb, heb, hsb, hvb⟩ := hb.boolForm htb
+  unfold boolNode at h
+  simp [hta, htb] at h
+  subst h
+  have hdata : (if isOr then orBits (bitsOf a.data) (bitsOf b.data) else andBits (bitsOf a.data) (bitsOf b.data))
+      = rows.map (fun row => if isOr then (ba row || bb row) else (ba row && bb row)) := by
+    cases isOr <;> simp [hda, hdb, bitsOf, orBits, andBits]
+  have hknown : kleenePresent isOr (bitsOf a.data) a.present (bitsOf b.data) b.present
+      = rows.map (fun row => kleeneKnown isOr (pa row) (ba row) (pb row) (bb row)) := by
+    simp only [kleenePresent, hda, hdb, bitsOf, hla, hlb, zip_map_map, zipWith_map_map]
+  by_cases hnone : a.present = none ∧ b.present = none
+  · -- both operands non-nullable: exact
+    refine Inv.exact (fun row => if isOr then (ba row || bb row) else (ba row && bb row)) (by simp [hpa, hpb]) rfl
+      (by simp only [hdata]) (by simp [hnone.1, hnone.2]) ?_
+    intro row hr
+    cases isOr
+    · simpa using exact_and i2f l r row _ _ (hea hnone.1 row hr) (heb hnone.2 row hr)
+    · simpa using exact_or i2f l r row _ _ (hea hnone.1 row hr) (heb hnone.2 row hr)
+  · have hsome : a.present.isSome = true ∨ b.present.isSome = true := by
+      cases hpa' : a.present <;> cases hpb' : b.present <;> simp_all
+    refine Inv.nullable (fun row => if isOr then (ba row || bb row) else (ba row && bb row))
+      (fun row => kleeneKnown isOr (pa row) (ba row) (pb row) (bb row)) (by simp [hpa, hpb]) rfl
+      (by simp only [hdata]) (by simp only [hknown]; exact if_pos hsome) ?_
+    intro row hr
+    cases isOr
+    · have := truth_and i2f l r row _ _ (hva row hr) (hvb row hr)
+      simp only [Bool.false_eq_true, if_false]
+      rw [kleene_and_truth]; exact this
+    · have := truth_or i2f l r row _ _ (hva row hr) (hvb row hr)
+      simp only [if_true]
+      rw [kleene_or_truth]; exact this
+
+/-- Poison flag of any node satisfying the invariant. -/
+theorem Inv.noPoison {i2f : Int → Nat} {rows : List Row} {e : Expr} {out : Out} (h : Inv i2f rows e out) :
+    out.poison = false := by cases h <;> assumption
+
+/-- A node satisfying the invariant is boolean or Null-typed. -/
+theorem Inv.typed {i2f : Int → Nat} {rows : List Row} {e : Expr} {out : Out} (h : Inv i2f rows e out) :
+    out.ty.decoded = .boolean ∨ out.ty.decoded = .null := by
+  cases h with
+  | exact _ _ ht _ _ _ => exact Or.inl ht
+  | nullable _ _ _ ht _ _ _ => exact Or.inl ht
+  | nullTyped _ ht _ => exact Or.inr ht
+
+theorem Inv.nullTruth {i2f : Int → Nat} {rows : List Row} {e : Expr} {out : Out} (h : Inv i2f rows e out)
+    (hn : out.ty.decoded = .null) : ∀ r ∈ rows, Truth i2f e r false := by
+  cases h with
+  | exact _ _ ht _ _ _ => rw [ht] at hn; cases hn
+  | nullable _ _ _ ht _ _ _ => rw [ht] at hn; cases hn
+  | nullTyped _ _ hv => exact hv
+
 theorem inv_and (i2f : Int → Nat) (rows : List Row) (l r : Expr) (a b out : Out)
     (ha : Inv i2f rows l a) (hb : Inv i2f rows r b) (h : boolNode false a b = .ok out) :
     Inv i2f rows (.and l r) out := by
-  unfold boolNode at h
-  cases ha with
-  | nullTyped hp ht hv =>
-    -- NULL AND x : the Null operand
-    simp [ht] at h; subst h
-    obtain ⟨tb, htb⟩ := hb.truth
-    have hbp : b.poison = false := by cases hb <;> assumption
-    refine Inv.nullTyped (by simp [hp, hbp]) ht ?_
+  obtain ⟨ta, hta⟩ := ha.truth
+  obtain ⟨tb, htb⟩ := hb.truth
+  rcases ha.typed with hba | hna
+  · rcases hb.typed with hbb | hnb
+    · simpa using inv_bool i2f rows false l r a b out ha hb hba hbb h
+    · -- x AND NULL : the Null operand
+      unfold boolNode at h
+      simp [hba, hnb] at h; subst h
+      refine Inv.nullTyped (by simp [ha.noPoison, hb.noPoison]) hnb ?_
+      intro row hr
+      have := truth_and i2f l r row (ta row) false (hta row hr) (hb.nullTruth hnb row hr)
+      simpa using this
+  · unfold boolNode at h
+    simp [hna] at h; subst h
+    refine Inv.nullTyped (by simp [ha.noPoison, hb.noPoison]) hna ?_
     intro row hr
-    have := truth_and i2f l r row false (tb row) (hv row hr) (htb row hr)
+    have := truth_and i2f l r row false (tb row) (ha.nullTruth hna row hr) (htb row hr)
     simpa using this
-  | exact ba hpa hta hda hna hva =>
-    cases hb with
-    | nullTyped hp ht hv =>
-      simp [hta, ht] at h; subst h
-      refine Inv.nullTyped (by simp [hp, hpa]) ht ?_
-      intro row hr
-      have := truth_and i2f l r row (ba row) false (truth_of_exact i2f l row _ (hva row hr)) (hv row hr)
-      simpa using this
-    | exact bb hpb htb hdb hnb hvb =>
-      simp [hta, htb] at h; subst h
-      refine Inv.exact (fun row => ba row && bb row) (by simp [hpa, hpb]) rfl ?_ (by simp [hna, hnb, combinePresent]) ?_
-      · simp [hda, hdb, bitsOf, andBits]
-      · intro row hr; exact exact_and i2f l r row _ _ (hva row hr) (hvb row hr)
-    | nullable bb pb hpb htb hdb hnb hvb =>
-      simp [hta, htb] at h; subst h
-      refine Inv.nullable (fun row => ba row && bb row) pb (by simp [hpa, hpb]) rfl ?_ (by simp [hna, hnb, combinePresent]) ?_
-      · simp [hda, hdb, bitsOf, andBits]
-      · intro row hr
-        have := truth_and i2f l r row (ba row) (bb row && pb row) (truth_of_exact i2f l row _ (hva row hr)) (hvb row hr)
-        simpa [Bool.and_assoc] using this
-  | nullable ba pa hpa hta hda hna hva =>
-    cases hb with
-    | nullTyped hp ht hv =>
-      simp [hta, ht] at h; subst h
-      refine Inv.nullTyped (by simp [hp, hpa]) ht ?_
-      intro row hr
-      have := truth_and i2f l r row (ba row && pa row) false (hva row hr) (hv row hr)
-      simpa using this
-    | exact bb hpb htb hdb hnb hvb =>
-      simp [hta, htb] at h; subst h
-      refine Inv.nullable (fun row => ba row && bb row) pa (by simp [hpa, hpb]) rfl ?_ (by simp [hna, hnb, combinePresent]) ?_
-      · simp [hda, hdb, bitsOf, andBits]
-      · intro row hr
-        have := truth_and i2f l r row (ba row && pa row) (bb row) (hva row hr) (truth_of_exact i2f r row _ (hvb row hr))
-        have e : (ba row && bb row && pa row) = (ba row && pa row && bb row) := by
-          cases ba row <;> cases bb row <;> cases pa row <;> rfl
-        rw [e]; exact this
-    | nullable bb pb hpb htb hdb hnb hvb =>
-      simp [hta, htb] at h; subst h
-      refine Inv.nullable (fun row => ba row && bb row) (fun row => pa row && pb row) (by simp [hpa, hpb]) rfl ?_
-        (by simp [hna, hnb, combinePresent]) ?_
-      · simp [hda, hdb, bitsOf, andBits]
-      · intro row hr
-        have := truth_and i2f l r row (ba row && pa row) (bb row && pb row) (hva row hr) (hvb row hr)
-        have e : (ba row && bb row && (pa row && pb row)) = (ba row && pa row && (bb row && pb row)) := by
-          cases ba row <;> cases bb row <;> cases pa row <;> cases pb row <;> rfl
-        rw [e]; exact this
 
-/-- OR of two non-nullable boolean operands (the hypothesis that excludes finding C03-and-or-null). -/
+theorem kleene_or_null (b p : Bool) : (b && kleeneKnown true p b false false) = (b && p) := by
+  cases b <;> cases p <;> rfl
+
+/-- `NULL OR x` for a boolean `x`. -/
+theorem inv_or_null (i2f : Int → Nat) (rows : List Row) (e ex : Expr) (x : Out) (poison : Bool) (hp : poison = false)
+    (hx : Inv i2f rows ex x) (hbx : x.ty.decoded = .boolean)
+    (hor : ∀ row ∈ rows, ∀ t, Truth i2f ex row t → Truth i2f e row t) :
+    Inv i2f rows e { data := x.data, present := some (kleenePresentNull (bitsOf x.data) x.present), ty := boolTy,
+                     poison := poison } := by
+  obtain ⟨bx, px, hpx, hdx, hlx, hex, hsx, hvx⟩ := hx.boolForm hbx
+  refine Inv.nullable bx (fun row => kleeneKnown true (px row) (bx row) false false) hp rfl hdx ?_ ?_
+  · simp only [kleenePresentNull, hdx, bitsOf, hlx, zipWith_map_map]
+  · intro row hr
+    rw [kleene_or_null]
+    exact hor row hr _ (hvx row hr)
+
 theorem inv_or (i2f : Int → Nat) (rows : List Row) (l r : Expr) (a b out : Out)
-    (ha : Inv i2f rows l a) (hb : Inv i2f rows r b)
-    (hna : a.present = none ∧ a.ty.decoded = .boolean) (hnb : b.present = none ∧ b.ty.decoded = .boolean)
-    (h : boolNode true a b = .ok out) :
+    (ha : Inv i2f rows l a) (hb : Inv i2f rows r b) (h : boolNode true a b = .ok out) :
     Inv i2f rows (.or l r) out := by
-  unfold boolNode at h
-  cases ha with
-  | nullTyped hp ht hv => rw [ht] at hna; cases hna.2
-  | nullable ba pa hpa hta hda hna' hva => rw [hna'] at hna; cases hna.1
-  | exact ba hpa hta hda hna' hva =>
-    cases hb with
-    | nullTyped hp ht hv => rw [ht] at hnb; cases hnb.2
-    | nullable bb pb hpb htb hdb hnb' hvb => rw [hnb'] at hnb; cases hnb.1
-    | exact bb hpb htb hdb hnb' hvb =>
-      simp [hta, htb] at h; subst h
-      refine Inv.exact (fun row => ba row || bb row) (by simp [hpa, hpb]) rfl ?_ (by simp [hna', hnb', combinePresent]) ?_
-      · simp [hda, hdb, bitsOf, orBits]
-      · intro row hr; exact exact_or i2f l r row _ _ (hva row hr) (hvb row hr)
+  rcases ha.typed with hba | hna
+  · rcases hb.typed with hbb | hnb
+    · simpa using inv_bool i2f rows true l r a b out ha hb hba hbb h
+    · -- x OR NULL
+      unfold boolNode at h
+      simp [hba, hnb] at h; subst h
+      apply inv_or_null i2f rows (.or l r) l a _ (by simp [ha.noPoison, hb.noPoison]) ha hba
+      intro row hr t ht
+      have := truth_or i2f l r row t false ht (hb.nullTruth hnb row hr)
+      simpa using this
+  · rcases hb.typed with hbb | hnb
+    · -- NULL OR x
+      unfold boolNode at h
+      simp [hna, hbb] at h; subst h
+      apply inv_or_null i2f rows (.or l r) r b _ (by simp [ha.noPoison, hb.noPoison]) hb hbb
+      intro row hr t ht
+      have := truth_or i2f l r row false t (ha.nullTruth hna row hr) ht
+      simpa using this
+    · -- NULL OR NULL : the right operand
+      unfold boolNode at h
+      simp [hna, hnb] at h; subst h
+      refine Inv.nullTyped (by simp [ha.noPoison, hb.noPoison]) hnb ?_
+      intro row hr
+      have := truth_or i2f l r row false false (ha.nullTruth hna row hr) (hb.nullTruth hnb row hr)
+      simpa using this
 
 /-! ### columns -/
 
@@ -932,18 +1008,13 @@ inductive Atom (fp : FP) (part : Part) (rows : List Row) : Expr → Prop where
   | isNotNull (j : Nat) (a : Out) :
       colRef part j = .ok a → (IsCol rows j a ∨ AbsentCol rows j a) → Atom fp part rows (.isNotNull (.col j))
 
-/-- The engine evaluates `e` to a non-nullable boolean buffer (no operand of it can be NULL). -/
-def NonNullBool (fp : FP) (part : Part) (e : Expr) : Prop :=
-  ∀ a, compile fp part e = .ok a → a.present = none ∧ a.ty.decoded = .boolean
-
 /-- The fragment of predicates for which the engine's filter is proved equal to the specification's:
-    atoms as above, AND / NOT without restriction (NOT of a nullable operand is rejected by the engine itself with an
-    error value), OR only of operands that cannot be NULL (excludes the open finding C03-and-or-null). -/
+    atoms as above, AND / OR / NOT without restriction (NOT of a nullable operand is rejected by the engine itself with an
+    error value). -/
 inductive Frag (fp : FP) (part : Part) (rows : List Row) : Expr → Prop where
   | atom (e : Expr) : Atom fp part rows e → Frag fp part rows e
   | and (l r : Expr) : Frag fp part rows l → Frag fp part rows r → Frag fp part rows (.and l r)
-  | or (l r : Expr) : Frag fp part rows l → Frag fp part rows r → NonNullBool fp part l → NonNullBool fp part r →
-      Frag fp part rows (.or l r)
+  | or (l r : Expr) : Frag fp part rows l → Frag fp part rows r → Frag fp part rows (.or l r)
   | not (e : Expr) : Frag fp part rows e → Frag fp part rows (.not e)
 
 theorem compile_lit (fp : FP) (part : Part) (k : Val) (o : Out) (h : litOut k = some o) :
@@ -1028,7 +1099,7 @@ theorem inv_frag (fp : FP) (part : Part) (rows : List Row) (hlen : part.len = ro
       · cases h
       · rename_i b hb
         exact inv_and fp.i2f rows l r a b out (ihl a ha) (ihr b hb) h
-  | or l r _ _ hnl hnr ihl ihr =>
+  | or l r _ _ ihl ihr =>
     intro out h
     simp only [compile] at h
     split at h
@@ -1037,7 +1108,7 @@ theorem inv_frag (fp : FP) (part : Part) (rows : List Row) (hlen : part.len = ro
       split at h
       · cases h
       · rename_i b hb
-        exact inv_or fp.i2f rows l r a b out (ihl a ha) (ihr b hb) (hnl a ha) (hnr b hb) h
+        exact inv_or fp.i2f rows l r a b out (ihl a ha) (ihr b hb) h
   | not e _ ih =>
     intro out h
     simp only [compile] at h
@@ -1059,14 +1130,120 @@ theorem where_of_frag (fp : FP) (part : Part) (rows : List Row) (hlen : part.len
     | exact b hp ht hd hn hv =>
       simp [whereFilter, hp, ht, hd, hn] at h
       refine ⟨b, ?_, filterRows_of_truth fp.i2f e rows b (fun r hr => truth_of_exact _ _ _ _ (hv r hr))⟩
-      rw [← h, filter_apply]; rfl
+      split at h
+      · cases h
+      · cases h; rw [filter_apply]; rfl
     | nullable b p hp ht hd hn hv =>
       simp [whereFilter, hp, ht, hd, hn] at h
       refine ⟨fun r => b r && p r, ?_, filterRows_of_truth fp.i2f e rows _ hv⟩
-      rw [← h, filter_apply]; simp [cellsTrue, zipWith_map_map]
+      split at h
+      · cases h
+      · cases h; rw [filter_apply]; simp [cellsTrue, zipWith_map_map]
     | nullTyped hp ht hv =>
       simp [whereFilter, hp, ht] at h
       refine ⟨fun _ => false, ?_, filterRows_of_truth fp.i2f e rows _ hv⟩
-      rw [h, idxTrue_all_false]
+      split at h
+      · cases h
+      · cases h; rw [idxTrue_all_false]
+
+/-! ### no panic inside the fragment (except the executor's shared-literal panic) -/
+
+theorem atom_compiles (fp : FP) (part : Part) (rows : List Row) (hlen : part.len = rows.length) (e : Expr)
+    (ha : Atom fp part rows e) : ∃ out, compile fp part e = .ok out := by
+  cases ha with
+  | intRight op j c l enc hl hc =>
+    obtain ⟨o, ho, _⟩ := inv_cmp_int_right fp op rows j l enc c hc
+    exact ⟨o, by simp [compile, hl]; exact ho⟩
+  | intLeft op j c l enc hl hc =>
+    obtain ⟨o, ho, _⟩ := inv_cmp_int_left fp op rows j l enc c hc
+    exact ⟨o, by simp [compile, hl]; exact ho⟩
+  | strRight op j c l enc hl hc =>
+    obtain ⟨o, ho, _⟩ := inv_cmp_str_right fp op rows j l enc c hc
+    exact ⟨o, by simp [compile, hl]; exact ho⟩
+  | strLeft op j c l enc hl hc =>
+    obtain ⟨o, ho, _⟩ := inv_cmp_str_left fp op rows j l enc c hc
+    exact ⟨o, by simp [compile, hl]; exact ho⟩
+  | floatRight op j k c l o hl hc hk hcst =>
+    obtain ⟨o', ho, _⟩ := inv_cmp_float_right fp op rows j l o k c hc hk hcst
+    exact ⟨o', by simp [compile, hl, compile_lit fp part k o hk]; exact ho⟩
+  | floatLeft op j k c l o hl hc hk hcst =>
+    obtain ⟨o', ho, _⟩ := inv_cmp_float_left fp op rows j l o k c hc hk hcst
+    exact ⟨o', by simp [compile, hl, compile_lit fp part k o hk]; exact ho⟩
+  | intColCol op j1 j2 l r e1 e2 hl hr h1 h2 =>
+    obtain ⟨o', ho, _⟩ := inv_cmp_int_colcol fp op rows j1 j2 l r e1 e2 h1 h2
+    exact ⟨o', by simp [compile, hl, hr]; exact ho⟩
+  | strColCol op j1 j2 l r e1 e2 hl hr h1 h2 =>
+    obtain ⟨o', ho, _⟩ := inv_cmp_str_colcol fp op rows j1 j2 l r e1 e2 h1 h2
+    exact ⟨o', by simp [compile, hl, hr]; exact ho⟩
+  | absentRight op j k a o hl hc hk =>
+    obtain ⟨o', ho, _⟩ := inv_cmp_absent_right fp op rows j a o k hc hk
+    exact ⟨o', by simp [compile, hl, compile_lit fp part k o hk]; exact ho⟩
+  | absentLeft op j k a o hl hc hk =>
+    obtain ⟨o', ho, _⟩ := inv_cmp_absent_left fp op rows j a o k hc hk
+    exact ⟨o', by simp [compile, hl, compile_lit fp part k o hk]; exact ho⟩
+  | isNull j a hl hc =>
+    obtain ⟨o, ho, _⟩ := inv_isNull fp.i2f rows j a true hc
+    exact ⟨o, by simp [compile, hl, hlen]; exact ho⟩
+  | isNotNull j a hl hc =>
+    obtain ⟨o, ho, _⟩ := inv_isNull fp.i2f rows j a false hc
+    exact ⟨o, by simp [compile, hl, hlen]; exact ho⟩
+
+theorem boolNode_no_panic (isOr : Bool) (a b : Out) : boolNode isOr a b ≠ .error .panic := by
+  unfold boolNode
+  repeat' split
+  all_goals first | (simp; done) | (simp; split <;> simp)
+
+theorem notNode_no_panic (a : Out) : notNode a ≠ .error .panic := by
+  unfold notNode
+  repeat' split
+  all_goals simp
+
+/-- Compiling a predicate of the fragment never panics (it yields a plan, or an error value). -/
+theorem compile_no_panic (fp : FP) (part : Part) (rows : List Row) (hlen : part.len = rows.length) (e : Expr)
+    (hf : Frag fp part rows e) : compile fp part e ≠ .error .panic := by
+  induction hf with
+  | atom e ha =>
+    obtain ⟨o, ho⟩ := atom_compiles fp part rows hlen e ha
+    rw [ho]; simp
+  | and l r _ _ ihl ihr =>
+    simp only [compile]
+    split
+    · rename_i e' he; intro h; cases h; exact ihl he
+    · split
+      · rename_i e' he; intro h; cases h; exact ihr he
+      · exact boolNode_no_panic false _ _
+  | or l r _ _ ihl ihr =>
+    simp only [compile]
+    split
+    · rename_i e' he; intro h; cases h; exact ihl he
+    · split
+      · rename_i e' he; intro h; cases h; exact ihr he
+      · exact boolNode_no_panic true _ _
+  | not e _ ih =>
+    simp only [compile]
+    split
+    · rename_i e' he; intro h; cases h; exact ih he
+    · exact notNode_no_panic _
+
+/-- Inside the fragment the engine model panics only through the executor's shared-string-literal defect. -/
+theorem panic_only_shared (fp : FP) (part : Part) (rows : List Row) (hlen : part.len = rows.length) (e : Expr)
+    (hf : Frag fp part rows e) (h : implFilter fp part e = .error .panic) : sharedStrLiteral part e = true := by
+  unfold implFilter at h
+  split at h
+  · rename_i err herr; cases h; exact absurd herr (compile_no_panic fp part rows hlen e hf)
+  · rename_i out hout
+    have hinv := inv_frag fp part rows hlen e hf out hout
+    split at h
+    · rename_i err hw
+      cases h
+      cases hinv with
+      | exact b hp ht hd hn hv => simp [whereFilter, ht, hd] at hw
+      | nullable b p hp ht hd hn hv => simp [whereFilter, ht, hd] at hw
+      | nullTyped hp ht hv => simp [whereFilter, ht] at hw
+    · split at h
+      · cases h
+      · split at h
+        · rename_i hs; exact hs
+        · cases h
 
 end LM.C03W
